@@ -219,6 +219,89 @@ def oracle_pooled(case):
                 sample={"body": text[:200], "pool": [case["max"], case["min"]], "schedule": sched.choices[:30]})
 
 
+@st.composite
+def bounded_cases(draw):
+    mx = draw(st.integers(1, 2))
+    kind = draw(st.sampled_from(["random", "random", "preempt"]))
+    if kind == "random":
+        spec = ("random", draw(st.integers(0, 2 ** 32)), draw(st.sampled_from([0.0, 0.6])))
+    else:
+        spec = ("preempt", draw(st.lists(st.tuples(st.integers(1, 60), st.integers(0, 3)), max_size=3)), draw(st.integers(0, 3)))
+    return {"max": mx, "min": draw(st.integers(0, mx)), "queue": draw(st.integers(1, 2)), "timeout": draw(st.sampled_from([0.5, 5, 60])),
+            # which notifications stay in their body until the environment lets them go
+            "holds": draw(st.lists(st.booleans(), min_size=2, max_size=6)), "batch": draw(st.booleans()),
+            "policy": draw(st.lists(st.booleans(), max_size=4)), "sched": spec, "version": draw(st.sampled_from([1.0, 2.0]))}
+
+
+def oracle_bounded(case):
+    """A notification pool with a bounded queue: when more notifications arrive than the pool can hold (workers busy,
+    queue full, enqueue timing out) each of them is still executed exactly once and the dispatcher still answers nothing"""
+    from vlib import detsched as D
+    from vlib import poolprog
+    import jsonrpclib.SimpleJSONRPCServer as S
+    from jsonrpclib.config import Config
+
+    simthreading, simqueue, tp = poolprog.sim()
+    sched = D.Scheduler(D.make_chooser(case["sched"]), trace_files=[], max_steps=300000)
+    log = []
+    gate = D.Event()
+    policy = list(case["policy"])
+    disp = S.SimpleJSONRPCDispatcher(config=Config(version=case["version"]))
+
+    def note(tok, hold):
+        log.append(tok)
+        if hold:
+            gate.wait()
+    disp.register_function(note, "note")
+
+    def on_quiescent(s_):
+        if gate.flag:
+            return False
+        if s_.pending_timers():
+            # a blocked enqueue may time out first, or the running notifications may finish first
+            if not (policy.pop(0) if policy else True):
+                return False
+        gate.flag = True
+        return True
+    sched.on_quiescent = on_quiescent
+    entries = [{"jsonrpc": "2.0", "method": "note", "params": ["n%d" % i, h]} if case["version"] >= 2 else {"id": None, "method": "note", "params": ["n%d" % i, h]}
+               for i, h in enumerate(case["holds"])]
+    bodies = [json.dumps(entries)] if case["batch"] else [json.dumps(e) for e in entries]
+    box = {"outs": []}
+
+    def main():
+        pool = tp.ThreadPool(case["max"], case["min"], queue_size=case["queue"], timeout=case["timeout"], logname="pool")
+        pool.start()
+        disp.set_notification_pool(pool)
+        try:
+            for b in bodies:
+                box["outs"].append(disp._marshaled_dispatch(b))
+        except Exception as ex:
+            box["exc"] = ex
+        gate.set()
+        pool.join()
+        pool.stop()
+
+    try:
+        sched.run(main)
+    except (D.Deadlock, D.StepBudget) as ex:
+        fail("C04/pooled-no-progress", "%s: %s" % (type(ex).__name__, ex))
+    want = sorted("n%d" % i for i in range(len(entries)))
+    saturated = len(entries) > case["max"] + case["queue"] and sum(case["holds"][:case["max"]]) == case["max"]
+    if "exc" in box:
+        fail("C04/pooled-full-queue:%s" % type(box["exc"]).__name__,
+             "with a notification pool of %d worker(s) and a queue of %d, the dispatcher raised %r on notification %d of %d (executed so far: %r)" % (
+                 case["max"], case["queue"], box["exc"], len(box["outs"]) + 1, len(bodies), sorted(log)))
+    if any(o != "" for o in box["outs"]):
+        fail("C04/notification-answered", "pooled notification answered %r" % (box["outs"],))
+    if sorted(log) != want:
+        fail("C04/notification-executions", "with a bounded notification pool the notifications ran as %r, expected %r" % (sorted(log), want))
+    return Info(nt=saturated, classes=["pooled-bounded", "pool-max:%d" % case["max"], "queue:%d" % case["queue"], "saturated" if saturated else "not-saturated",
+                                       "batch" if case["batch"] else "separate-bodies"],
+                key=(repr(case["holds"]), case["max"], case["queue"], case["batch"], tuple(sched.choices)),
+                sample={"pool": [case["max"], case["min"], case["queue"], case["timeout"]], "holds": case["holds"], "batch": case["batch"]})
+
+
 def pooled_sweep_cases(tier):
     for mx, mn in ((1, 0), (2, 0), (2, 1)):
         for batch in (False, True):
@@ -314,6 +397,10 @@ SUBS = [
         budget={"quick": 3000, "thorough": 60000}, shards={"quick": 12, "thorough": 16},
         time_cap={"quick": 100, "thorough": 1500},
         what="notifications on a (simulated) ThreadPool, request thread and workers interleaved by generated schedules"),
+    Sub("pooled-bounded", oracle_bounded, strategy=lambda tier: bounded_cases(),
+        budget={"quick": 1500, "thorough": 30000}, shards={"quick": 6, "thorough": 16},
+        time_cap={"quick": 100, "thorough": 1500},
+        what="a notification pool with a bounded queue under saturation (workers busy, queue full, enqueue timing out)"),
     Sub("inline", oracle, strategy=lambda tier: notif_cases(),
         budget={"quick": 6000, "thorough": 100000}, shards={"quick": 8, "thorough": 16},
         what="notification shapes alone and inside batches, inline execution"),
